@@ -154,6 +154,43 @@ def trace_leg(ctx, pid, with_repo_tests=True):
                                                                         "previous_events": t[max(0, rj["at"] - 5):rj["at"] - 1]})
 
 
+def large_block_leg(ctx):
+    """One recording far beyond the model's bounds (66000 spectra per block, more than 2^16 output rows in a single
+    channelize call) against the same reference pipeline, for num_subblocks 1 and 3: an instantiation at scale of the
+    LayoutIsGuppi / PartitionIndependence statements, outside what TLC enumerates."""
+    import numpy as np
+    from .. import guppi
+    work = os.path.join(ctx.outdir, "rawL")
+    os.makedirs(work, exist_ok=True)
+    cfg = {"taps": 2, "U": 33000, "S": 1, "blocks": 1, "bpf": 1, "pols": 1, "bits": 8, "dict": "fresh"}
+    inst = {"B": 8, "nch": 1, "start_chan": 1, "ascending": True, "digitize": True, "rate": 1024.0, "nant": 1, "seed": 4242 + ctx.seed,
+            "template": False, "delays": [0]}
+    outs = []
+    for S in (1, 3):
+        c = dict(cfg)
+        c["S"] = S
+        src, _ = ad.make_source(c, inst)
+        be, T, bps, bs = ad.make_backend(c, inst, src)
+        be.record(os.path.join(work, "L%d" % S), num_blocks=1, length_mode="num_blocks", header_dict={}, load_template=False, verbose=False)
+        blk = guppi.parse_file(os.path.join(work, "L%d.0000.raw" % S))[0]
+        outs.append(blk["data"])
+        os.remove(os.path.join(work, "L%d.0000.raw" % S))
+    twin, _ = ad.make_source(cfg, inst)
+    want, tie = ad.reference_bytes(cfg, inst, twin, cfg["U"] * cfg["taps"] + cfg["taps"])[0]
+    ctx.evaluations += 2
+    ctx.mark(("large-block", cfg["U"], 1))
+    ctx.mark(("large-block", cfg["U"], 3))
+    for S, got in zip((1, 3), outs):
+        if got != want:
+            g = guppi.decode_block(got, 1, 1, 8)
+            w = guppi.decode_block(want, 1, 1, 8)
+            hard = (g != w) & ((tie > 1e-7) | (np.abs(g - w) > 1.5))
+            if np.any(hard):
+                idx = np.argwhere(hard)[0].tolist()
+                ctx.violation(MODULE, "replay:bytes_large_block", {"action": "RecordLargeBlock", "S": S, "spectra_per_block": cfg["U"] * cfg["taps"]},
+                              {"first_wrong_chan_time_pol": idx, "n_wrong": int(hard.sum()), "expected": str(w[tuple(idx)]), "observed": str(g[tuple(idx)])})
+
+
 def core_dir():
     return os.path.dirname(os.path.dirname(os.path.dirname(os.path.abspath(__file__))))
 
@@ -161,3 +198,4 @@ def core_dir():
 def run(ctx):
     run_for(ctx, "C02")
     trace_leg(ctx, "C02")
+    large_block_leg(ctx)
